@@ -56,6 +56,10 @@ theorem loops_match :
     receiverLoopBreaks = [] ∧
     providerStartPacket = "if startingPkt.CurrentState == sidecar.StateCreated then startingPkt.ReceiverTicket" ∧
     receiverStartPacket = "startingPkt.ProviderTicket" ∧
+    -- after a failed receive the readers back off, re-create the mailbox IGNORING the result and read again:
+    -- a receive error (`recvErr`) therefore changes nothing in the model
+    providerReaderRetry = ["_ = MailBox.InitAcctMailbox", "continue"] ∧
+    receiverReaderRetry = ["_ = MailBox.InitSidecarMailbox", "continue"] ∧
     resumeRemap = [(sOffered, sCreated)] ∧
     resumeCond = "ticket.Offer.Auto && !ticket.State.IsTerminal()" ∧
     resumePackets = ["provider=false;CurrentState=ticket.State,ReceiverTicket=ticket,ProviderTicket=ticket",
